@@ -151,6 +151,11 @@ class Prop:
                 for k_ in rng.sample(['dims', 'labels', 'dtype', 'copy', 'values', 'axes', 'shape', '_indexing'], rng.randint(1, 2)):
                     a['attrs'][k_] = {'dtype': 'float64', 'copy': 'no', '_indexing': 'label'}.get(k_, 'kept')
                 stats['metadata_member_names']['yes'] += 1
+            if rng.random() < 0.2:
+                # axis-level metadata stored under names of Axis constructor parameters / members
+                for m_ in a['axattrs']:
+                    for k_ in rng.sample(['name', 'tol', 'dtype', 'values', 'size'], 1): m_[k_] = {'dtype': 'float32', 'tol': 0.5}.get(k_, 'kept')
+                stats['axis_metadata_member_names']['yes'] += 1
             dims = a['dims']; i = rng.randrange(nd); d = dims[i]; labs = a['labels'][i]
             name = rng.choice(Prop.KEEP + Prop.DROP)
             stats['propagation_op'][name] += 1
